@@ -10,6 +10,8 @@
 // last), one checksum byte flipped, the type byte set to every other value in {0..5, 255}, the length set to len+-1, 0, 65535, "exactly to the
 // block end" and one beyond, the whole block zeroed, everything from (frame start + {0,3,7,7+len/2}) to the end of the log zeroed (torn tail), the frame overwritten
 // by a copy of another frame of the same length (duplicated / transposed frames).
+// Whole-file damage (C10 only): each file removed / cut to 0, 100, one block + 100 bytes / extended by two blocks of 0xFF / duplicated under the next
+// number; an empty file and a sub-directory with the next WAL names.
 // Oracles (tags): open never panics nor do the accessors (C10); every recovered record is byte-for-byte one that was appended, positions
 // strictly increasing (C08); a batch is recovered whole, not at all, or minus a head that a later truncate call removed (C12); damage confined
 // to the payload / checksum bytes of one frame: open succeeds and every retained record of every OTHER entry is recovered intact (C09);
@@ -307,6 +309,37 @@ mod verif_enum_dmg {
         })
     }
 
+    /// C10 only: damage at the level of whole files (not in-place): a file removed, cut to 0 / 100 / one block + 100 bytes, extended by two blocks of 0xFF,
+    /// duplicated under the next free number, an empty file with the next free number, a sub-directory with a WAL name; open must answer (Ok or Err), no panic
+    fn file_level(b: &Built, name: &str, steps: &[Step], fails: &std::sync::Mutex<Vec<String>>, count: &std::sync::atomic::AtomicU64) {
+        let n = b.files.len();
+        let last_num: u64 = b.files[n - 1].file_name().unwrap().to_str().unwrap()[4..].parse().unwrap();
+        let mut cases: Vec<(String, Box<dyn Fn(&Path)>)> = Vec::new();
+        for k in 0..n {
+            let fname = b.files[k].file_name().unwrap().to_os_string();
+            let f1 = fname.clone(); cases.push((format!("file {k} removed"), Box::new(move |d: &Path| { std::fs::remove_file(d.join(&f1)).unwrap(); })));
+            for cut in [0u64, 100, BLOCK as u64 + 100] {
+                let f2 = fname.clone(); cases.push((format!("file {k} cut to {cut} bytes"), Box::new(move |d: &Path| { std::fs::OpenOptions::new().write(true).open(d.join(&f2)).unwrap().set_len(cut).unwrap(); })));
+            }
+            let f3 = fname.clone(); cases.push((format!("file {k} extended by two blocks of 0xFF"), Box::new(move |d: &Path| {
+                use std::io::Write; let mut f = std::fs::OpenOptions::new().append(true).open(d.join(&f3)).unwrap(); f.write_all(&vec![0xFFu8; 2 * BLOCK]).unwrap(); })));
+            let f4 = fname.clone(); cases.push((format!("file {k} duplicated as file {}", last_num + 1), Box::new(move |d: &Path| { std::fs::copy(d.join(&f4), d.join(format!("wal-{:020}", last_num + 1))).unwrap(); })));
+        }
+        cases.push((format!("empty file {}", last_num + 1), Box::new(move |d: &Path| { std::fs::write(d.join(format!("wal-{:020}", last_num + 1)), b"").unwrap(); })));
+        cases.push((format!("sub-directory named like file {}", last_num + 2), Box::new(move |d: &Path| { std::fs::create_dir(d.join(format!("wal-{:020}", last_num + 2))).unwrap(); })));
+        for (what, dmg) in cases {
+            let t = tempfile::tempdir().unwrap();
+            for p in &b.files { std::fs::copy(p, t.path().join(p.file_name().unwrap())).unwrap(); }
+            dmg(t.path());
+            count.fetch_add(1, std::sync::atomic::Ordering::Relaxed);
+            if let Err(p) = open_and_observe(t.path().to_path_buf()) {
+                let msg = p.downcast_ref::<String>().cloned().or_else(|| p.downcast_ref::<&str>().map(|s| s.to_string())).unwrap_or_default();
+                fails.lock().unwrap().push(format!("E-HIST-FAIL tags=C10 run=E-dmg layout={name} steps={steps:?} damage=File({what}) :: open (or a read accessor) panics: {msg}"));
+                return;
+            }
+        }
+    }
+
     fn scenarios() -> Vec<(String, Vec<Step>)> {
         use Step::*;
         let pre = || vec![Create("f"), Create("a"), Create("b")];
@@ -366,6 +399,7 @@ mod verif_enum_dmg {
                     for (i, c) in b.c15.iter().enumerate() {
                         if i < 2 { fails.lock().unwrap().push(format!("E-HIST-FAIL tags=C15 run=E-dmg layout={name} steps={steps:?} damage=None :: {c}")); }
                     }
+                    file_level(&b, name, steps, &fails, &count);
                     let mut per_tag: BTreeMap<String, usize> = BTreeMap::new();
                     let mut cases: Vec<(Frame, Dmg)> = vec![(b.frames[0].clone(), Dmg::None)];
                     for (fi, f) in b.frames.iter().enumerate() {
